@@ -1,6 +1,7 @@
 (* Proofs about Model/MpiWrite.v: conservation of records in the MPI write pipeline, no loss
    with synchronous sends, no loss with eager sends and a single sending rank, and the
-   refutation for eager sends with >= 2 sending ranks (finding F13b).  No axioms. *)
+   refutation for eager sends with >= 2 sending ranks (finding F13b); error paths: termination
+   of synchronising collectives iff the ranks' call sequences agree (finding F23).  No axioms. *)
 From Verif Require Import Prelude Dispatch DispatchP MpiWrite.
 From Coq Require Import Permutation.
 From AAC_tactics Require Import AAC.
@@ -351,4 +352,151 @@ Proof.
   exists s. pose proof (wrun_sound _ _ E) as Hr. vm_compute in E. injection E as <-.
   cbn [rp stopped wch stored]. repeat split; auto.
   intros HP. apply Permutation_length in HP. discriminate.
+Qed.
+
+(* ---- error paths under MPI: alignment of collective calls (model at the end of Model/MpiWrite.v) ----
+   A world of synchronising collectives terminates on all ranks iff all ranks enter the same
+   sequence of calls; otherwise it runs into a state that is stuck for good.  Hence a refusal
+   decided by every rank terminates everywhere, a refusal detected by only some ranks blocks
+   the others (whatever the caller does next). *)
+From Coq Require Import Lia.
+Definition alleq (w : cworld) : Prop := forall t u, In t w -> In u w -> t = u.
+
+Lemma aligned_alleq w : aligned w = true <-> alleq w.
+Proof.
+  destruct w as [|t0 r]; simpl.
+  - split; [intros _ t u []|reflexivity].
+  - rewrite forallb_forall. split.
+    + intros H t u Ht Hu.
+      assert (E : forall x, In x (t0 :: r) -> x = t0).
+      { intros x [<-|Hx]; [reflexivity|]. symmetry. apply nlist_eqb_eq. apply H, Hx. }
+      rewrite (E t Ht), (E u Hu). reflexivity.
+    + intros H x Hx. apply nlist_eqb_eq. apply H; simpl; auto.
+Qed.
+
+Lemma alleq_tl w : alleq w -> alleq (map (@tl nat) w).
+Proof.
+  intros H t u Ht Hu. apply in_map_iff in Ht as (t1 & <- & Ht1). apply in_map_iff in Hu as (u1 & <- & Hu1).
+  rewrite (H t1 u1 Ht1 Hu1). reflexivity.
+Qed.
+
+Lemma cterminates_alleq w : cterminates w -> alleq w.
+Proof.
+  intros (w' & Hr & Hd). induction Hr as [w|w w1 w2 Hs Hr IH].
+  - intros t u Ht Hu. rewrite (Hd t Ht), (Hd u Hu). reflexivity.
+  - specialize (IH Hd). destruct Hs as [k w Hne Hk].
+    intros t u Ht Hu.
+    destruct (Hk t Ht) as (t' & ->). destruct (Hk u Hu) as (u' & ->).
+    f_equal. apply (IH t' u').
+    + change t' with (tl (k :: t')). apply in_map, Ht.
+    + change u' with (tl (k :: u')). apply in_map, Hu.
+Qed.
+
+Lemma alleq_cterminates w : alleq w -> cterminates w.
+Proof.
+  destruct w as [|t0 r].
+  - intros _. exists []. split; [constructor|intros t []].
+  - remember (t0 :: r) as w eqn:Ew. intros H.
+    assert (H0 : forall t, In t w -> t = t0) by (intros t Ht; apply H; [exact Ht|subst w; simpl; auto]).
+    assert (Hne : w <> []) by (subst w; discriminate).
+    clear Ew H r. revert w H0 Hne. induction t0 as [|k t0 IH]; intros w H0 Hne.
+    + exists w. split; [constructor|exact H0].
+    + destruct (IH (map (@tl nat) w)) as (w' & Hr & Hd).
+      * intros t Ht. apply in_map_iff in Ht as (t1 & <- & Ht1). rewrite (H0 t1 Ht1). reflexivity.
+      * destruct w; [congruence|discriminate].
+      * exists w'. split; [|exact Hd]. eapply creach_step; [|exact Hr].
+        apply cstep_all with (k := k); [exact Hne|]. intros t Ht. exists t0. apply H0, Ht.
+Qed.
+
+Theorem cterminates_iff_aligned w : cterminates w <-> aligned w = true.
+Proof. rewrite aligned_alleq. split; [apply cterminates_alleq|apply alleq_cterminates]. Qed.
+
+(* a world that is not aligned runs into a state in which nothing is enabled although some rank
+   has not returned: once the common prefix is consumed, it is stuck for good *)
+Lemma cstep_det w w1 w2 : cstep w w1 -> cstep w w2 -> w1 = w2.
+Proof. intros H1 H2. destruct H1. inversion H2. reflexivity. Qed.
+
+Lemma cstep_length w w1 : cstep w w1 -> forall t, In t w -> exists t1, In t1 w1 /\ length t = S (length t1).
+Proof.
+  intros H. destruct H as [k w Hne Hk]. intros t Ht. destruct (Hk t Ht) as (t' & ->).
+  exists t'. split; [|reflexivity]. change t' with (tl (k :: t')). apply in_map, Ht.
+Qed.
+
+Lemma head_is_spec k t : head_is k t = true <-> exists t', t = k :: t'.
+Proof.
+  destruct t as [|k' t]; simpl.
+  - split; [discriminate|intros (t' & E); discriminate].
+  - rewrite Nat.eqb_eq. split; [intros ->; eauto|intros (t' & E); congruence].
+Qed.
+
+Lemma cstep_fun_spec w w1 : cstep w w1 <-> cstep_fun w = Some w1.
+Proof.
+  split.
+  - intros H. destruct H as [k w Hne Hk]. destruct w as [|t0 r]; [congruence|].
+    destruct (Hk t0 (or_introl eq_refl)) as (t0' & ->).
+    assert (E : forallb (head_is k) ((k :: t0') :: r) = true).
+    { apply forallb_forall. intros t Ht. apply head_is_spec, Hk, Ht. }
+    unfold cstep_fun. rewrite E. reflexivity.
+  - unfold cstep_fun. destruct w as [|[|k t0] r]; try discriminate.
+    destruct (forallb (head_is k) ((k :: t0) :: r)) eqn:E; [|discriminate].
+    intros [= <-]. apply cstep_all with (k := k); [discriminate|].
+    intros t Ht. apply head_is_spec. rewrite forallb_forall in E. apply E, Ht.
+Qed.
+
+Lemma classic_step w : (exists w1, cstep w w1) \/ ~ (exists w1, cstep w w1).
+Proof.
+  destruct (cstep_fun w) as [w1|] eqn:E.
+  - left. exists w1. apply cstep_fun_spec, E.
+  - right. intros (w1 & H). apply cstep_fun_spec in H. congruence.
+Qed.
+
+Theorem not_aligned_reaches_stuck w : aligned w = false -> exists w', creach w w' /\ cstuck w'.
+Proof.
+  intros Ha.
+  assert (Hn : ~ cterminates w) by (rewrite cterminates_iff_aligned, Ha; discriminate).
+  destruct w as [|t0 r]; [discriminate|].
+  remember (length t0) as m eqn:Em. remember (t0 :: r) as w eqn:Ew.
+  assert (Hin : exists t, In t w /\ length t = m) by (exists t0; subst; simpl; auto).
+  clear Ew Em Ha t0 r. revert w Hn Hin. induction m as [|m IH]; intros w Hn (t & Ht & Hl).
+  - exists w. split; [constructor|]. split.
+    + intros Hd. apply Hn. exists w. split; [constructor|exact Hd].
+    + intros w' Hs. destruct (cstep_length Hs t Ht) as (t1 & _ & E). lia.
+  - destruct (classic_step w) as [(w1 & Hs)|Hno].
+    + destruct (cstep_length Hs t Ht) as (t1 & Ht1 & E).
+      destruct (IH w1) as (w' & Hr & Hst).
+      * intros (w2 & Hr2 & Hd2). apply Hn. exists w2. split; [eapply creach_step; eauto|exact Hd2].
+      * exists t1. split; [exact Ht1|lia].
+      * exists w'. split; [eapply creach_step; eauto|exact Hst].
+    + exists w. split; [constructor|]. split.
+      * intros Hd. apply Hn. exists w. split; [constructor|exact Hd].
+      * intros w' Hs. apply Hno. exists w'. exact Hs.
+Qed.
+
+(* ---- refusal disciplines ---- *)
+Lemma world_of_in n prog r : r < n -> In (prog r) (world_of n prog).
+Proof. intros H. unfold world_of. apply in_map, in_seq. lia. Qed.
+
+Theorem refusal_all_ranks_terminates n pre next : cterminates (world_of n (refuse_all pre next)).
+Proof.
+  apply alleq_cterminates. intros t u Ht Hu. unfold world_of in *.
+  apply in_map_iff in Ht as (r1 & <- & _). apply in_map_iff in Hu as (r2 & <- & _). reflexivity.
+Qed.
+
+Theorem refusal_some_ranks_blocks n who pre body next r1 r2 :
+  r1 < n -> r2 < n -> who r1 = true -> who r2 = false -> body <> [] ->
+  ~ cterminates (world_of n (refuse_some who pre body next)).
+Proof.
+  intros H1 H2 W1 W2 Hb Ht. apply cterminates_alleq in Ht.
+  specialize (Ht _ _ (world_of_in _ H1) (world_of_in _ H2)).
+  unfold refuse_some in Ht. rewrite W1, W2 in Ht. apply (f_equal (@length nat)) in Ht.
+  rewrite !app_length in Ht. simpl in Ht. destruct body; [congruence|simpl in Ht; lia].
+Qed.
+
+Corollary refusal_some_ranks_stuck n who pre body next r1 r2 :
+  r1 < n -> r2 < n -> who r1 = true -> who r2 = false -> body <> [] ->
+  exists w', creach (world_of n (refuse_some who pre body next)) w' /\ cstuck w'.
+Proof.
+  intros. apply not_aligned_reaches_stuck.
+  destruct (aligned _) eqn:E; [|reflexivity]. exfalso.
+  apply (@refusal_some_ranks_blocks n who pre body next r1 r2); auto. apply cterminates_iff_aligned, E.
 Qed.
